@@ -255,6 +255,80 @@ def hierarchy_equalities():
     return failures, evals
 
 
+def quantifier_scopes():
+    """directed and exhaustive: the `Exists w. (w == t) and phi(w)` elimination next to quantifiers that bind, shadow or capture the variables
+    involved -- t a free variable / an object / a fluent of a variable, phi containing a quantifier over a variable named like t's, several
+    quantified variables of which some disappear -- under EVERY interpretation of two unary predicates over two objects and every value of the
+    free variables: value preserved, no new free variable, simplify idempotent"""
+    import itertools
+    import warnings
+    from unified_planning.shortcuts import Problem, Fluent, BoolType, UserType, Object, Variable, Exists, Forall, And, Or, Not, Equals
+    from unified_planning.model.walkers import Simplifier
+    from spec.ev import ev
+    T_ = UserType("T11q")
+    pr = Problem("c11_scopes")
+    o0, o1 = Object("o0", T_), Object("o1", T_)
+    pr.add_objects([o0, o1])
+    p, q, loc = Fluent("p", BoolType(), x=T_), Fluent("q", BoolType(), x=T_), Fluent("loc", T_, x=T_)
+    for f in (p, q, loc):
+        pr.add_fluent(f)
+    w, v, u = Variable("w", T_), Variable("v", T_), Variable("u", T_)
+    exprs = []
+    for t in (v, o0, loc(v), loc(o1)):
+        for Q in (Forall, Exists):
+            for bound in (v, u):
+                for body in (Or(q(bound), p(w)), And(q(bound), Not(p(w))), Or(p(bound), Equals(w, bound))):
+                    exprs.append(Exists(And(Equals(w, t), Q(body, bound)), w))
+                    exprs.append(Exists(And(Q(body, bound), Equals(t, w)), w))
+    exprs += [Exists(And(Equals(w, o0), Or(Equals(w, o0), q(v))), w, v), Exists(And(Equals(w, v), p(w)), w), Exists(And(Equals(w, v), p(w)), w, v),
+              Forall(Exists(And(Equals(w, v), Exists(And(q(v), p(w)), v)), w), v), Exists(Or(Equals(w, o0), q(v)), w, v),
+              Exists(And(Equals(w, u), Equals(u, o1), p(w)), w, u), Exists(And(Equals(w, loc(w)), p(w)), w)]
+    fvo = pr.environment.free_vars_oracle
+    failures, evals = [], 0
+    objs = [o0, o1]
+    with warnings.catch_warnings():
+        warnings.simplefilter("ignore")
+        simps = (("plain", Simplifier(pr.environment)), ("problem", Simplifier(pr.environment, pr)))
+        for e in exprs:
+            for which, simp_ in simps:
+                try:
+                    se = simp_.simplify(e)
+                    sse = simp_.simplify(se)
+                except Exception as ex:  # noqa
+                    failures.append({"what": f"simplify raised {type(ex).__name__} [quantifier scopes]", "concrete": {"expression": str(e), "simplifier": which}, "observed": repr(ex)})
+                    continue
+                if sse is not se:
+                    failures.append({"what": "simplification is not idempotent [quantifier scopes]", "concrete": {"expression": str(e), "simplifier": which},
+                                     "observed": {"once": str(se), "twice": str(sse)}})
+                free = sorted(fvo.get_free_variables(e), key=lambda x: x.name)
+                if not set(fvo.get_free_variables(se)) <= set(free):
+                    failures.append({"what": "simplification introduced a free variable [quantifier scopes]", "concrete": {"expression": str(e), "simplifier": which}, "observed": str(se)})
+                    continue
+                bad = None
+                for bits in itertools.product([False, True], repeat=4):
+                    for locs in itertools.product(objs, repeat=2):
+                        table = {("p", "o0"): bits[0], ("p", "o1"): bits[1], ("q", "o0"): bits[2], ("q", "o1"): bits[3], ("loc", "o0"): locs[0], ("loc", "o1"): locs[1]}
+                        lk = lambda f, args, table=table: table[(f.name, args[0].name)]
+                        for vals in itertools.product(objs, repeat=len(free)):
+                            env_ = dict(zip(free, vals))
+                            evals += 1
+                            v1, v2 = ev(e, lk, env_, pr), ev(se, lk, env_, pr)
+                            if v1 != v2:
+                                bad = {"interpretation": {f"{k[0]}({k[1]})": str(x) for k, x in table.items()}, "free": {x.name: o.name for x, o in env_.items()},
+                                       "value": str(v1), "simplified_value": str(v2)}
+                                break
+                        if bad:
+                            break
+                    if bad:
+                        break
+                if bad:
+                    failures.append({"what": "simplification changed the value [quantifier scopes: elimination of an equated existential next to another binder]",
+                                     "concrete": {"expression": str(e), "simplifier": which}, "observed": dict(bad, simplified=str(se))})
+            if len(failures) >= 3:
+                break
+    return failures, evals
+
+
 def bounded(tier, seed):
     """random well-typed expressions (depth <= 3, quantifiers, big integer / rational constants, products) under random
     interpretations: simplify preserves the value, introduces no free variable and is idempotent; with a problem,
@@ -400,10 +474,11 @@ def bounded(tier, seed):
             if len(failures) >= 6:
                 break
     hfail, hev = hierarchy_equalities()
-    failures = hfail + failures
-    evals += hev
+    qfail, qev = quantifier_scopes()
+    failures = hfail + qfail + failures
+    evals += hev + qev
     return {"evaluations": evals, "distinct_nontrivial": len(nontrivial), "failures": failures[:6],
-            "rule": f"every equality between two user-typed terms (objects, fluents, variables, parameters) over a type hierarchy "
+            "rule": f"directed quantifier-scope family (equated existentials next to binders that shadow / capture, every interpretation); every equality between two user-typed terms (objects, fluents, variables, parameters) over a type hierarchy "
                     f"Depot < Location > Market, bare / negated / in a disjunction, under every assignment of the terms; "
                     f"{n} random well-typed expressions of depth <= 3 (Boolean and numeric, quantifiers incl. the `v == t and phi(v)` shape, "
                     f"constants beyond 2**53 and large rationals, n-ary products), 3 random interpretations each, with and without a "
